@@ -23,6 +23,13 @@
      ENUMERATED / BOOLEAN / NULL defaults (coq/Rt/CanonicalDefault.v over coq/Rt/Ext.v): the
      encoders that ask default_value_cmp at every place are independent of explicit-vs-absent;
      those that ask at some places only are refuted.
+   - time types (coq/Leaf/GTimeCanon.v over the C17 models Leaf/GTime.v, CivilTime.v): the DER of a
+     GeneralizedTime is asn_time2GT_frac(force_gmt) of what asn_GT2time_frac read; it depends only on
+     the instant and the fraction value (nanos), has the X.690 11.7 shape (14 digits, minimal fraction,
+     Z) for years 0..9999 and is idempotent; the "already canonical" fast path that accepts 10/12/14
+     digits (seeded/C06-7) is refuted, and so is one that requires 14 (second 60 is carried by the
+     reader, not by the verbatim text); UTCTime's DER is the stored text (refuted), the canonicaliser
+     proposed for it is a function of the instant, of the 11.8 shape and idempotent in 1960..2059.
    DEFAULT of other types, BIT STRING unused bits, wide INTEGER_t in PER/OER/XER and
    CANONICAL-XER are outside the modelled algebra: tie only. *)
 From Coq Require Import ZArith List Bool Permutation Sorted.
@@ -253,3 +260,104 @@ Theorem C06_default_uper_root_only_refuted :
     /\ dfl_uper_root_only false dr da t (EVSeq rvs avs1) <> dfl_uper_root_only false dr da t (EVSeq rvs avs2).
 Proof. exact dfl_uper_root_only_refuted. Qed.
 Print Assumptions C06_default_uper_root_only_refuted.
+
+(* ------------------------------------------------------------------ *)
+(* time types: one instant stored in any accepted spelling *)
+From A1 Require Import Leaf.StrtoxProofs Leaf.CivilTime Leaf.GTime Leaf.GTimeProofs Leaf.GTimeCanon Leaf.GTimeCanonProofs.
+
+Theorem C06_gt_fraction_text_depends_on_value fv fd : 0 <= fd -> 0 <= fv < 10 ^ fd ->
+  frac_text fv fd = frac_canon (nanos fv fd).
+Proof. exact (frac_text_nanos fv fd). Qed.
+Print Assumptions C06_gt_fraction_text_depends_on_value.
+
+Theorem C06_gt_reader_result_invariant bs lg t fv fd :
+  GT2time_frac bs lg = GtOk t fv fd -> t <> -1 /\ 0 <= fd /\ 0 <= fv < 10 ^ fd.
+Proof. exact (GT2time_frac_res bs lg t fv fd). Qed.
+Print Assumptions C06_gt_reader_result_invariant.
+
+Theorem C06_gt_der_depends_on_value_only s1 lg1 s2 lg2 t fv1 fd1 fv2 fd2 :
+  GT2time_frac s1 lg1 = GtOk t fv1 fd1 -> GT2time_frac s2 lg2 = GtOk t fv2 fd2 ->
+  nanos fv1 fd1 = nanos fv2 fd2 ->
+  gt_canon s1 lg1 = gt_canon s2 lg2.
+Proof. exact (gt_canon_same_value s1 lg1 s2 lg2 t fv1 fd1 fv2 fd2). Qed.
+Print Assumptions C06_gt_der_depends_on_value_only.
+
+Theorem C06_gt_equal_fractions_equal_nanos fv1 fd1 fv2 fd2 : 0 <= fd1 <= 9 -> 0 <= fd2 <= 9 ->
+  fv1 * 10 ^ fd2 = fv2 * 10 ^ fd1 -> nanos fv1 fd1 = nanos fv2 fd2.
+Proof. exact (nanos_equal_fractions fv1 fd1 fv2 fd2). Qed.
+Print Assumptions C06_gt_equal_fractions_equal_nanos.
+
+Theorem C06_gt_der_text bs lg t fv fd : GT2time_frac bs lg = GtOk t fv fd -> t_min <= t < t_max ->
+  gt_canon bs lg = Some (gt_body (gmtime t) ++ frac_canon (nanos fv fd) ++ [90]).
+Proof. exact (gt_canon_spec bs lg t fv fd). Qed.
+Print Assumptions C06_gt_der_text.
+
+Theorem C06_gt_der_shape bs lg t fv fd : GT2time_frac bs lg = GtOk t fv fd -> t_min <= t < t_max ->
+  exists ds fr, gt_canon bs lg = Some (ds ++ fr ++ [90]) /\
+    digits_ok ds /\ length ds = 14%nat /\ min_fraction fr.
+Proof. exact (gt_canon_shape bs lg t fv fd). Qed.
+Print Assumptions C06_gt_der_shape.
+
+Theorem C06_gt_der_idempotent bs lg t fv fd : GT2time_frac bs lg = GtOk t fv fd -> t_min <= t < t_max ->
+  exists out, gt_canon bs lg = Some out /\ forall lg', gt_canon out lg' = Some out.
+Proof. exact (gt_canon_idempotent bs lg t fv fd). Qed.
+Print Assumptions C06_gt_der_idempotent.
+
+Theorem C06_gt_fast_path_unchanged_elsewhere_partial ok bs lg :
+  ok bs = false -> gt_canon_with ok bs lg = gt_canon bs lg.
+Proof. exact (gt_canon_fast_partial ok bs lg). Qed.
+Print Assumptions C06_gt_fast_path_unchanged_elsewhere_partial.
+
+Theorem C06_gt_fast_path_refuted :
+  GT2time_frac s_2026_hm 0 = GtOk 1767268800 0 0 /\ GT2time_frac s_2026_h 0 = GtOk 1767268800 0 0 /\
+  GT2time_frac s_2026 0 = GtOk 1767268800 0 0 /\
+  gt_canon s_2026_hm 0 = Some s_2026 /\ gt_canon s_2026_h 0 = Some s_2026 /\ gt_canon s_2026 0 = Some s_2026 /\
+  gt_canon_fast s_2026_hm 0 = Some s_2026_hm /\ gt_canon_fast s_2026_h 0 = Some s_2026_h /\
+  gt_canon_fast s_2026 0 = Some s_2026 /\ s_2026_hm <> s_2026 /\ s_2026_h <> s_2026.
+Proof. exact gt_canon_fast_refuted. Qed.
+Print Assumptions C06_gt_fast_path_refuted.
+
+Theorem C06_gt_fast_path_14_digits_refuted :
+  gt_fast14_ok s_leap = true /\ GT2time_frac s_leap 0 = GtOk 1483228800 0 0 /\
+  GT2time_frac s_2017 0 = GtOk 1483228800 0 0 /\
+  gt_canon s_leap 0 = Some s_2017 /\ gt_canon_fast14 s_leap 0 = Some s_leap /\ s_leap <> s_2017.
+Proof. exact gt_canon_fast14_refuted. Qed.
+Print Assumptions C06_gt_fast_path_14_digits_refuted.
+
+Theorem C06_ut_canon_depends_on_instant_only s1 lg1 s2 lg2 t a1 b1 a2 b2 :
+  UT2time s1 lg1 = GtOk t a1 b1 -> UT2time s2 lg2 = GtOk t a2 b2 -> ut_canon s1 lg1 = ut_canon s2 lg2.
+Proof. exact (ut_canon_same_instant s1 lg1 s2 lg2 t a1 b1 a2 b2). Qed.
+Print Assumptions C06_ut_canon_depends_on_instant_only.
+
+Theorem C06_ut_canon_shape_idempotent bs lg t a b : UT2time bs lg = GtOk t a b -> ut_min <= t < ut_max ->
+  exists out ds, ut_canon bs lg = Some out /\ out = ds ++ [90] /\ digits_ok ds /\ length ds = 12%nat /\
+    forall lg', ut_canon out lg' = Some out.
+Proof. exact (ut_canon_idempotent bs lg t a b). Qed.
+Print Assumptions C06_ut_canon_shape_idempotent.
+
+Theorem C06_ut_der_verbatim_refuted :
+  UT2time u_2026_hm 0 = GtOk 1767268800 0 0 /\ UT2time u_2026 0 = GtOk 1767268800 0 0 /\
+  UT2time u_2026_off 0 = GtOk 1767268800 0 0 /\
+  ut_der u_2026_hm <> ut_der u_2026 /\ ut_der u_2026_off <> ut_der u_2026 /\
+  ut_canon u_2026_hm 0 = Some u_2026 /\ ut_canon u_2026_off 0 = Some u_2026 /\ ut_canon u_2026 0 = Some u_2026.
+Proof. exact ut_der_verbatim_refuted. Qed.
+Print Assumptions C06_ut_der_verbatim_refuted.
+
+(* compare_struct of GeneralizedTime, instants equal: the fraction branch *)
+Theorem C06_gt_compare_fix_is_value_order av ad bv bd : 0 <= ad <= 9 -> 0 <= bd <= 9 ->
+  frac_cmp_fix av ad bv bd = (nanos av ad ?= nanos bv bd).
+Proof. exact (frac_cmp_fix_nanos av ad bv bd). Qed.
+Print Assumptions C06_gt_compare_fix_is_value_order.
+
+Theorem C06_gt_compare_fraction_partial av ad bv bd : 0 <= bd -> ad = bd ->
+  frac_cmp_c av ad bv bd = frac_cmp_fix av ad bv bd.
+Proof. exact (frac_cmp_c_partial av ad bv bd). Qed.
+Print Assumptions C06_gt_compare_fraction_partial.
+
+Theorem C06_gt_compare_fraction_refuted :
+  frac_cmp_fix 5 1 50 2 = Eq /\ frac_cmp_c 5 1 50 2 = Lt /\
+  frac_cmp_fix 0 0 0 1 = Eq /\ frac_cmp_c 0 0 0 1 = Lt /\
+  frac_cmp_fix 5 1 25 2 = Gt /\ frac_cmp_c 5 1 25 2 = Lt /\
+  frac_cmp_fix 25 2 3 1 = Lt /\ frac_cmp_c 25 2 3 1 = Gt.
+Proof. exact frac_cmp_c_refuted. Qed.
+Print Assumptions C06_gt_compare_fraction_refuted.
